@@ -96,6 +96,61 @@ def model_values(model, inputs):
     return out
 
 
+def solve_quick(o, z3_ms=1500, want_model=True, on_model=None):
+    """Stage 1 (in the generating process): a short z3 attempt. Returns a result dict; when the
+    verdict is still open, res['smt2'] carries the SMT-LIB text for stage 2."""
+    t0 = time.time()
+    s = z3.Solver()
+    s.set('timeout', z3_ms)
+    for p in o.premises:
+        s.add(p)
+    s.add(z3.Not(o.goal))
+    r = s.check()
+    tz = time.time() - t0
+    res = {'status': 'unknown', 'backend': 'z3-5.1(py)', 'time_s': tz, 'model': None}
+    if r == z3.unsat:
+        res['status'] = 'unsat'
+        return res
+    txt = to_smt2(o.premises, o.goal)
+    if r == z3.sat and 'str.replace_all' not in txt:
+        res['status'] = 'sat'
+        if want_model:
+            res['model'] = model_values(s.model(), o.inputs)
+            if on_model is not None:
+                res['replay'] = on_model(s.model())
+        return res
+    if r == z3.sat and want_model:
+        res['model'] = model_values(s.model(), o.inputs)
+        if on_model is not None:
+            res['replay'] = on_model(s.model())
+        res['z3_said_sat_modulo_replace_all'] = True
+    res['smt2'] = txt
+    return res
+
+
+def solve_text(args):
+    """Stage 2 (pool worker): cvc5 and z3 CLI on the SMT-LIB text; first definite answer wins."""
+    txt, cvc5_s, z3_s, both = args
+    t0 = time.time()
+    r1, t1 = run_cvc5(txt, cvc5_s)
+    out = {'status': 'unknown', 'backend': 'cvc5-1.0.3', 'time_s': t1}
+    if r1 in ('sat', 'unsat'):
+        out['status'] = r1
+        if not both:
+            return out
+    r2, t2 = run_z3cli(txt, z3_s)
+    if both and r1 in ('sat', 'unsat'):
+        out['crosscheck'] = {'z3cli': r2, 'time_s': t2}
+        if r2 in ('sat', 'unsat') and r2 != r1:
+            out['status'] = 'disagree'
+        return out
+    if r2 in ('sat', 'unsat'):
+        out = {'status': r2, 'backend': 'z3-5.1(cli)', 'time_s': t1 + t2}
+    else:
+        out['time_s'] = time.time() - t0
+    return out
+
+
 def solve(o, z3_ms=4000, cvc5_s=15, want_model=True, crosscheck=False, extra_eval=None):
     """-> dict(status, backend, time_s, model)"""
     t0 = time.time()
@@ -146,3 +201,118 @@ def solve(o, z3_ms=4000, cvc5_s=15, want_model=True, crosscheck=False, extra_eva
             return res
     res['time_s'] = time.time() - t0
     return res
+
+
+# ---------------------------------------------------------------------------------------------
+# reading counter-models back into Python-level values (for native replay)
+
+def z3_unescape(s):
+    """z3 prints non-ASCII / control characters of string values as \\u{hex}."""
+    return re.sub(r'\\u\{([0-9a-fA-F]+)\}', lambda m: chr(int(m.group(1), 16)), s)
+
+
+class ModelReader:
+    def __init__(self, eng, model, heap, ghost):
+        self.eng = eng
+        self.m = model
+        self.heap = heap
+        self.ghost = ghost
+        self.objects = {}
+
+    def ev(self, t):
+        return self.m.eval(t, model_completion=True)
+
+    def term(self, t, ty):
+        """z3 term of static type ty -> JSON-able description."""
+        from .values import PV
+        k = ty.kind
+        v = self.ev(t)
+        if k in ('int',):
+            return v.as_long()
+        if k == 'bool':
+            return z3.is_true(v)
+        if k == 'real':
+            return {'$real': [v.numerator_as_long(), v.denominator_as_long()]}
+        if k == 'str':
+            return z3_unescape(v.as_string())
+        if k in ('bytes', 'bytearray'):
+            return {'$' + k: [ord(ch) % 256 for ch in z3_unescape(v.as_string())]}
+        if k == 'none':
+            return None
+        if k == 'any':
+            return self.pv(v)
+        if k == 'json':
+            return {'$json': str(v)}
+        if k == 'opaque':
+            return {'$opaque': ty.args[0], 'id': v.as_long()}
+        if k == 'ref':
+            return self.obj(ty.args[0], v.as_long())
+        if k == 'ss':
+            return {'$tuple': [z3_unescape(v.arg(0).as_string()),
+                               z3_unescape(v.arg(1).as_string())]}
+        if k == 'list':
+            n = self.ev(z3.Length(t)).as_long()
+            return [self.term(t[i], ty.args[0]) for i in range(min(n, 40))]
+        return {'$unreadable': str(ty)}
+
+    def pv(self, v):
+        from .values import PV
+        name = v.decl().name()
+        if name == 'pnone':
+            return None
+        a = v.arg(0)
+        if name == 'pb':
+            return z3.is_true(a)
+        if name == 'pi':
+            return a.as_long()
+        if name == 'pr':
+            return {'$real': [a.numerator_as_long(), a.denominator_as_long()]}
+        if name == 'ps':
+            return z3_unescape(a.as_string())
+        if name == 'py':
+            return {'$bytes': [ord(ch) % 256 for ch in z3_unescape(a.as_string())]}
+        if name == 'pya':
+            return {'$bytearray': [ord(ch) % 256 for ch in z3_unescape(a.as_string())]}
+        if name == 'pj':
+            return {'$json': str(a), 'isdict': z3.is_true(self.ev(
+                __import__('pyvc.values', fromlist=['j_isdict']).j_isdict(a)))}
+        if name == 'po':
+            return {'$opaque': 'object', 'id': a.as_long()}
+        if name == 'pls':
+            n = self.ev(z3.Length(a)).as_long()
+            return [z3_unescape(self.ev(a[i]).as_string()) for i in range(min(n, 40))]
+        return {'$unreadable': name}
+
+    def obj(self, cls, oid, depth=0):
+        key = '%s#%d' % (self.eng.reg.root_of(cls), oid)
+        if key in self.objects or depth > 3:
+            return {'$ref': key}
+        d = {'$class': cls}
+        self.objects[key] = d
+        from .values import V, Ref
+        for f, fty in self.eng.reg.all_fields(cls).items():
+            if fty.kind in ('dict', 'recf'):
+                continue
+            try:
+                hk = (self.eng.reg.root_of(cls), f)
+                arr = self.heap.get(hk)
+                if arr is None:
+                    from .values import sort_of
+                    arr = z3.Const('H_%s_%s' % hk, z3.ArraySort(z3.IntSort(), sort_of(fty)))
+                d[f] = self.term(z3.Select(arr, oid), fty)
+            except Exception as e:      # unreadable field: leave it out
+                d[f] = {'$unreadable': str(e)[:80]}
+        return {'$ref': key}
+
+    def params(self, penv):
+        out = {}
+        for n, v in penv.items():
+            if n.startswith('__'):
+                continue
+            try:
+                if v.ty.kind in ('rec', 'tup', 'fn', 'mod', 'dict', 'exc'):
+                    continue
+                out[n] = self.term(v.t, v.ty)
+            except Exception as e:
+                out[n] = {'$unreadable': str(e)[:80]}
+        return out
